@@ -76,8 +76,26 @@ def contains_inf(e: ast.AST) -> Optional[ast.AST]:
     return None
 
 
+def is_neg_inf(e: ast.AST) -> bool:
+    """-inf written out: -np.inf, np.NINF, float('-inf')."""
+    if isinstance(e, ast.UnaryOp) and isinstance(e.op, ast.USub):
+        return is_inf(e.operand) and not is_neg_inf(e.operand)
+    if isinstance(e, ast.UnaryOp) and isinstance(e.op, ast.UAdd):
+        return is_neg_inf(e.operand)
+    t = norm(e).replace('"', "'")
+    return t in ("np.NINF", "numpy.NINF", "float('-inf')")
+
+
 def source_kind(st: ast.stmt, fn: Optional[ast.AST] = None) -> str:
-    """How the infinite value enters an array (independent of the names used)."""
+    """How the infinite value enters an array (independent of the names used).  The SIGN is part of the kind: +inf marks an
+    entry as unusable for a minimising matcher, -inf makes it the mandatory choice and is rejected by scipy outright."""
+    k = _source_kind(st, fn)
+    val = getattr(st, "value", None)
+    neg = val is not None and any(is_neg_inf(n) for n in ast.walk(val))
+    return k.replace("inf", "-inf") if neg else k
+
+
+def _source_kind(st: ast.stmt, fn: Optional[ast.AST] = None) -> str:
     val = getattr(st, "value", None)
     for t in astq.stmt_targets(st):
         sl = astq.expand(fn, t.slice) if isinstance(t, ast.Subscript) and fn is not None else getattr(t, "slice", None)
